@@ -29,7 +29,7 @@ def res_of(d):
 
 
 def parse_via(channel, raw):
-    """channel: 'qsl' | 'query' | 'forms' | 'params'"""
+    """channel: 'qsl' | 'query' | 'forms' | 'params' | 'forms-after-body'"""
     from ombott import Ombott
     from ombott.request_pkg.helpers import parse_qsl, FormsDict
     try:
@@ -46,6 +46,11 @@ def parse_via(channel, raw):
         env = base_environ(REQUEST_METHOD='POST', CONTENT_TYPE='application/x-www-form-urlencoded', CONTENT_LENGTH=str(len(body)))
         env['wsgi.input'] = io.BytesIO(body)
         app.request.__init__(env)
+        if channel == 'forms-after-body':
+            # a signature check or a logging hook has already read (part of) the body
+            b = app.request.body
+            b.read(parse_via.peek)
+            return res_of(app.request.forms), ''
         if channel == 'forms':
             return res_of(app.request.forms), ''
         return res_of(app.request.params), ''
@@ -95,9 +100,10 @@ def run(chk):
         keys = [''.join(chr(rng.choice(CPS)) for _ in range(rng.randint(1, 4))) for _ in range(max(1, n // 2 + 1))]
         pairs = [(rng.choice(keys), ''.join(chr(rng.choice(CPS)) for _ in range(rng.choice([0, 1, 2, 5])))) for _ in range(n)]
         raw = urlencode(pairs)
-        ch = rng.choice(['qsl', 'query', 'forms', 'params'])
-        if ch in ('forms', 'params') and not raw:
+        ch = rng.choice(['qsl', 'query', 'forms', 'params', 'forms-after-body'])
+        if ch in ('forms', 'params', 'forms-after-body') and not raw:
             ch = 'query'
+        parse_via.peek = rng.choice([-1, 0, 1, 7])
         res, exc = parse_via(ch, raw)
         traces.append({'raw': s2l(raw), 'pairs': [[s2l(k), s2l(v)] for k, v in pairs], 'res': res, 'exc': exc, 'exact': True, 'ch': ch})
         chk.count(1, ('pairs', raw, ch))
